@@ -1,5 +1,5 @@
 From SS Require Import Model.Prelude Gen.Gen_Dist Gen.Gen_Sim Model.L6_Sim.
-From Coq Require Import String List Permutation Sorting.Sorted Lia Lqa QArith ZArith.
+From Coq Require Import String List Permutation Sorting.Sorted Lia Lqa QArith ZArith Qround.
 Local Open Scope list_scope.
 
 Section Machine.
@@ -113,6 +113,30 @@ Section Multi.
   Qed.
   Theorem member_seed base i : member base i = simulate (base + Z.of_nat i)%Z.
   Proof. reflexivity. Qed.
+  (* in-place updating hands the caller's i-th object the state of the standalone run with seed base + i, and leaves it alone when the
+     lengths disagree *)
+  Section InPlace.
+    Variable obj : Type.
+    Variable take_over : obj -> result -> obj.
+    Theorem in_place_gets_member base n objs i d : List.length objs = n -> (i < n)%nat ->
+      nth i (update_in_place result obj take_over objs (serial_runs result simulate base n)) d = take_over (nth i objs d) (member base i).
+    Proof.
+      intros L Hi. unfold update_in_place, serial_runs. rewrite map_length, seq_length, L, Nat.eqb_refl.
+      set (f := fun p : obj * result => take_over (fst p) (snd p)).
+      assert (Lc : (i < List.length (combine objs (map (member base) (seq 0 n))))%nat) by (rewrite combine_length, map_length, seq_length, L; lia).
+      rewrite (nth_indep _ d (f (d, member base 0%nat))) by (rewrite map_length; exact Lc).
+      rewrite (map_nth f). rewrite combine_nth by (rewrite map_length, seq_length; exact L).
+      unfold f. cbn [fst snd]. f_equal.
+      rewrite (map_nth (member base)). rewrite seq_nth by exact Hi. reflexivity.
+    Qed.
+    Theorem in_place_preserves_count objs rs : List.length (update_in_place result obj take_over objs rs) = List.length objs.
+    Proof.
+      unfold update_in_place. destruct (Nat.eqb_spec (List.length rs) (List.length objs)) as [E|N]; [|reflexivity].
+      rewrite map_length, combine_length, E. lia.
+    Qed.
+    Theorem in_place_refused_on_length_mismatch objs rs : List.length rs <> List.length objs -> update_in_place result obj take_over objs rs = objs.
+    Proof. intros N. unfold update_in_place. destruct (Nat.eqb_spec (List.length rs) (List.length objs)); [contradiction|reflexivity]. Qed.
+  End InPlace.
   Theorem members_have_distinct_seeds base i j : i <> j -> reseed_gen base (Z.of_nat i) <> reseed_gen base (Z.of_nat j).
   Proof. unfold reseed_gen. lia. Qed.
 End Multi.
@@ -154,6 +178,138 @@ Proof.
 Qed.
 Theorem quantile_order_invariant q l l' : Permutation l l' -> quantile q l = quantile q l'.
 Proof. intros P. unfold quantile. rewrite (zsort_order_invariant l l' P). reflexivity. Qed.
+
+
+Lemma zsort_length l : List.length (zsort l) = List.length l.
+Proof. apply Permutation_length, zsort_perm. Qed.
+Lemma zsort_bounds L H l : (forall x, In x l -> (L <= x <= H)%Z) -> forall x, In x (zsort l) -> (L <= x <= H)%Z.
+Proof. intros B x I. apply B. eapply Permutation_in; [apply zsort_perm|exact I]. Qed.
+
+Lemma convex_between (L H a b f : Q) : L <= a -> a <= H -> L <= b -> b <= H -> 0 <= f -> f <= 1 -> L <= a + f * (b - a) /\ a + f * (b - a) <= H.
+Proof. intros. split; nra. Qed.
+
+Lemma Qfloor_frac x : 0 <= x - inject_Z (Qfloor x) /\ x - inject_Z (Qfloor x) < 1.
+Proof.
+  pose proof (Qfloor_le x) as A. pose proof (Qlt_floor x) as B. rewrite inject_Z_plus in B. change (inject_Z 1) with 1 in B. split; lra.
+Qed.
+
+(* the stated statistic lies between the smallest and the largest member *)
+Theorem quantile_between q l L H : l <> [] -> 0 <= q -> q <= 1 -> (forall x, In x l -> (L <= x <= H)%Z) ->
+  inject_Z L <= quantile q l /\ quantile q l <= inject_Z H.
+Proof.
+  intros N Q0 Q1 B. unfold quantile. set (s := zsort l). set (n := List.length s).
+  assert (Hn : (1 <= n)%nat). { unfold n, s. rewrite zsort_length. destruct l; [congruence|cbn; lia]. }
+  assert (Bs : forall x, In x s -> (L <= x <= H)%Z) by (apply zsort_bounds; exact B).
+  set (m := inject_Z (Z.of_nat (n - 1))). set (pos := q * m).
+  assert (M0 : 0 <= m). { unfold m. change 0 with (inject_Z 0). rewrite <- Zle_Qle. lia. }
+  assert (P0 : 0 <= pos) by (unfold pos; nra). assert (P1 : pos <= m) by (unfold pos; nra).
+  assert (F0 : (0 <= Qfloor pos)%Z). { change 0%Z with (Qfloor 0). apply Qfloor_resp_le. exact P0. }
+  assert (F1 : (Qfloor pos <= Z.of_nat (n - 1))%Z). { rewrite <- (Qfloor_Z (Z.of_nat (n - 1))). apply Qfloor_resp_le. exact P1. }
+  set (lo := Qfloor pos) in *.
+  assert (Ia : In (nth (Z.to_nat lo) s 0%Z) s) by (apply nth_In; fold n; lia).
+  set (a := nth (Z.to_nat lo) s 0%Z) in *.
+  assert (Ib : (L <= nth (Z.to_nat (lo + 1)) s a <= H)%Z).
+  { destruct (Nat.lt_ge_cases (Z.to_nat (lo + 1)) n) as [Lt|Ge]; [apply Bs, nth_In; exact Lt|]. rewrite nth_overflow by (fold n; exact Ge). apply Bs, Ia. }
+  set (b := nth (Z.to_nat (lo + 1)) s a) in *. pose proof (Bs _ Ia) as Ba. pose proof (Qfloor_frac pos) as [Fr0 Fr1]. fold lo in Fr0, Fr1.
+  assert (E : inject_Z (b - a) == inject_Z b - inject_Z a) by (unfold Z.sub; rewrite inject_Z_plus, inject_Z_opp; ring). rewrite E. apply convex_between; try lra; rewrite <- Zle_Qle; lia.
+Qed.
+
+Lemma sorted_nth_le s : StronglySorted Z.le s -> forall i j d, (i <= j < List.length s)%nat -> (nth i s d <= nth j s d)%Z.
+Proof.
+  induction 1 as [|h t Hs IH Hf]; intros i j d Hij; [cbn in Hij; lia|].
+  destruct i as [|i]; destruct j as [|j]; cbn [nth]; [lia| |lia|apply IH; cbn in Hij; lia].
+  rewrite Forall_forall in Hf. apply Hf, nth_In. cbn in Hij. lia.
+Qed.
+
+(* a larger q never gives a smaller statistic: low <= median <= high *)
+Theorem quantile_monotone q q' l : l <> [] -> 0 <= q -> q <= q' -> q' <= 1 -> quantile q l <= quantile q' l.
+Proof.
+  intros N Q0 Qq Q1. unfold quantile. set (s := zsort l). set (n := List.length s).
+  assert (Hn : (1 <= n)%nat). { unfold n, s. rewrite zsort_length. destruct l; [congruence|cbn; lia]. }
+  pose proof (zsort_sorted l) as S. fold s in S.
+  set (m := inject_Z (Z.of_nat (n - 1))).
+  assert (M0 : 0 <= m). { unfold m. change 0 with (inject_Z 0). rewrite <- Zle_Qle. lia. }
+  set (pos := q * m). set (pos' := q' * m).
+  assert (P0 : 0 <= pos) by (unfold pos; nra). assert (Pp : pos <= pos') by (unfold pos, pos'; nra). assert (P1 : pos' <= m) by (unfold pos'; nra).
+  assert (F0 : (0 <= Qfloor pos)%Z). { change 0%Z with (Qfloor 0). apply Qfloor_resp_le. exact P0. }
+  assert (Fp : (Qfloor pos <= Qfloor pos')%Z) by (apply Qfloor_resp_le; exact Pp).
+  assert (F1 : (Qfloor pos' <= Z.of_nat (n - 1))%Z). { rewrite <- (Qfloor_Z (Z.of_nat (n - 1))). apply Qfloor_resp_le. exact P1. }
+  pose proof (Qfloor_frac pos) as [Fr0 Fr1]. pose proof (Qfloor_frac pos') as [Fr0' Fr1'].
+  set (k := Qfloor pos) in *. set (k' := Qfloor pos') in *.
+  set (a := nth (Z.to_nat k) s 0%Z). set (a' := nth (Z.to_nat k') s 0%Z).
+  set (b := nth (Z.to_nat (k + 1)) s a). set (b' := nth (Z.to_nat (k' + 1)) s a').
+  assert (AB : forall kk, (0 <= kk <= Z.of_nat (n - 1))%Z -> (nth (Z.to_nat kk) s 0 <= nth (Z.to_nat (kk + 1)) s (nth (Z.to_nat kk) s 0))%Z).
+  { intros kk Hk. destruct (Nat.lt_ge_cases (Z.to_nat (kk + 1)) n) as [Lt|Ge].
+    - rewrite (nth_indep s (nth (Z.to_nat kk) s 0%Z) 0%Z Lt). apply sorted_nth_le; [exact S|fold n; lia].
+    - rewrite (nth_overflow s (nth (Z.to_nat kk) s 0%Z) Ge). lia. }
+  assert (Hab : (a <= b)%Z) by (apply AB; lia). assert (Hab' : (a' <= b')%Z) by (apply AB; lia).
+  assert (E : forall x y, inject_Z (y - x) == inject_Z y - inject_Z x) by (intros; unfold Z.sub; rewrite inject_Z_plus, inject_Z_opp; ring).
+  rewrite !E. rewrite Zle_Qle in Hab, Hab'.
+  destruct (Z.eq_dec k k') as [Ek|Nk].
+  - assert (Ea : a' = a) by (unfold a, a'; rewrite Ek; reflexivity). assert (Eb : b' = b) by (unfold b, b'; rewrite Ea, Ek; reflexivity).
+    rewrite Ea, Eb, <- Ek. nra.
+  - assert (Lt : (k + 1 <= k')%Z) by lia.
+    assert (Hba : (b <= a')%Z).
+    { unfold b. rewrite (nth_indep s a 0%Z) by (fold n; lia). apply sorted_nth_le; [exact S|fold n; lia]. }
+    rewrite Zle_Qle in Hba. nra.
+Qed.
+
+Lemma sorted_hd_min s : StronglySorted Z.le s -> forall x, In x s -> (nth 0 s 0 <= x)%Z.
+Proof. intros S x I. destruct (In_nth s x 0%Z I) as [i [Hi <-]]. apply sorted_nth_le; [exact S|lia]. Qed.
+Lemma sorted_last_max s : StronglySorted Z.le s -> forall x, In x s -> (x <= nth (List.length s - 1) s 0)%Z.
+Proof. intros S x I. destruct (In_nth s x 0%Z I) as [i [Hi <-]]. apply sorted_nth_le; [exact S|lia]. Qed.
+
+(* the 0- and 1-quantiles are the smallest and the largest member *)
+Theorem quantile_zero_is_min l : l <> [] -> exists m, In m l /\ (forall x, In x l -> (m <= x)%Z) /\ quantile 0 l == inject_Z m.
+Proof.
+  intros N. set (s := zsort l). assert (Hn : (1 <= List.length s)%nat). { unfold s. rewrite zsort_length. destruct l; [congruence|cbn; lia]. }
+  exists (nth 0 s 0%Z). split; [|split].
+  - eapply Permutation_in; [apply zsort_perm|]. apply nth_In. exact Hn.
+  - intros x I. apply sorted_hd_min; [apply zsort_sorted|]. eapply Permutation_in; [apply Permutation_sym, zsort_perm|exact I].
+  - unfold quantile. fold s. cbv zeta. set (pos := 0 * inject_Z (Z.of_nat (List.length s - 1))).
+    assert (Hp : pos == 0) by (unfold pos; ring). assert (Hf : Qfloor pos = 0%Z) by (rewrite Hp; reflexivity).
+    rewrite Hf. cbn [Z.to_nat]. rewrite Hp. change (inject_Z 0) with 0. ring.
+Qed.
+Theorem quantile_one_is_max l : l <> [] -> exists m, In m l /\ (forall x, In x l -> (x <= m)%Z) /\ quantile 1 l == inject_Z m.
+Proof.
+  intros N. set (s := zsort l). assert (Hn : (1 <= List.length s)%nat). { unfold s. rewrite zsort_length. destruct l; [congruence|cbn; lia]. }
+  exists (nth (List.length s - 1) s 0%Z). split; [|split].
+  - eapply Permutation_in; [apply zsort_perm|]. apply nth_In. fold s. lia.
+  - intros x I. apply sorted_last_max; [apply zsort_sorted|]. eapply Permutation_in; [apply Permutation_sym, zsort_perm|exact I].
+  - unfold quantile. fold s. cbv zeta. set (pos := 1 * inject_Z (Z.of_nat (List.length s - 1))).
+    assert (Hp : pos == inject_Z (Z.of_nat (List.length s - 1))) by (unfold pos; ring).
+    assert (Hf : Qfloor pos = Z.of_nat (List.length s - 1)) by (rewrite Hp; apply Qfloor_Z).
+    rewrite Hf, Nat2Z.id, Hp. ring.
+Qed.
+
+(* the mean lies between the smallest and the largest member *)
+Lemma qsum_between (L H : Q) l : (forall x, In x l -> L <= x /\ x <= H) ->
+  inject_Z (Z.of_nat (List.length l)) * L <= qsum l /\ qsum l <= inject_Z (Z.of_nat (List.length l)) * H.
+Proof.
+  induction l as [|h t IH]; intros B; [cbn [qsum fold_right List.length]; change (inject_Z (Z.of_nat 0)) with 0; split; lra|]. cbn [qsum fold_right List.length]. fold (qsum t).
+  rewrite Nat2Z.inj_succ. unfold Z.succ. rewrite inject_Z_plus. change (inject_Z 1) with 1.
+  destruct (B h (or_introl eq_refl)). destruct IH as [I1 I2]; [intros x I; apply B; right; exact I|]. split; lra.
+Qed.
+Theorem mean_between (L H : Q) l : l <> [] -> (forall x, In x l -> L <= x /\ x <= H) -> L <= qmean_of l /\ qmean_of l <= H.
+Proof.
+  intros N B. unfold qmean_of. destruct (qsum_between L H l B) as [I1 I2]. set (n := inject_Z (Z.of_nat (List.length l))) in *.
+  assert (Hn : 0 < n). { unfold n. change 0 with (inject_Z 0). rewrite <- Zlt_Qlt. destruct l; [congruence|cbn [List.length]; lia]. }
+  split.
+  - apply Qle_shift_div_l; [exact Hn|lra].
+  - apply Qle_shift_div_r; [exact Hn|lra].
+Qed.
+
+(* the variance (np.std squared) does not depend on the order of the members either *)
+Lemma qsum_map_ext (f g : Q -> Q) l : (forall x, f x == g x) -> qsum (map f l) == qsum (map g l).
+Proof. intros E. induction l as [|h t IH]; cbn [map qsum fold_right]; [reflexivity|]. fold (qsum (map f t)). fold (qsum (map g t)). rewrite IH, E. reflexivity. Qed.
+Theorem variance_order_invariant l l' : Permutation l l' -> qvar_of l == qvar_of l'.
+Proof.
+  intros P. unfold qvar_of. pose proof (mean_order_invariant l l' P) as M.
+  set (f := fun x : Q => ((x - qmean_of l) * (x - qmean_of l))%Q). set (g := fun x : Q => ((x - qmean_of l') * (x - qmean_of l'))%Q).
+  assert (S : (qsum (map f l) == qsum (map g l'))%Q).
+  { rewrite (qsum_perm _ _ (Permutation_map f P)). apply qsum_map_ext. intros x. unfold f, g. rewrite M. reflexivity. }
+  unfold qmean_of. rewrite !map_length, (Permutation_length P), S. reflexivity.
+Qed.
 
 (* ---- C02: a sufficient condition for independence that can be read off two components: disjoint footprints (Bernstein's conditions).
    The shared state is a family of named arrays; a component has a read set R and a write set W. *)
